@@ -12,7 +12,7 @@ from harness.drivers import channel as dc
 INVS = ["ReturnedMeansAll", "RaiseIfShut", "SendallOutcome", "SendallNoSpin"]
 BASE = dict(UsersA={"a1", "a2"}, UsersB={"b1"}, Daemons="@{}", OpsA="@{}", OpsB="@{}", MaxCalls=1, W0=3, MaxPkt=2, PeerMax=2,
             Thresh=0, SendN=4, Codes={1}, ReadSizes={2}, Modes={"block"}, Loss=False,
-            FixRace=True, FixSendall=True, FixCredit=True, Mut="none", SpinCap=3)
+            FixRace=True, FixSendall=True, FixCredit=True, Mut="none", SpinCap=3, HoldBack=False)
 U = 4032
 GEN = dict(BASE, OpsA={"sendall", "sendall_err", "send", "close", "shutdown_write"}, OpsB={"recv", "recv_err", "close", "shutdown_write"},
            MaxCalls=2, W0=10, Thresh=1, SendN=7, ReadSizes={1, 3, 12}, Modes={"block", "nonblock"},
